@@ -54,7 +54,141 @@ let split_op op =
   | None -> (op, "")
   | Some i -> (String.sub op 0 i, String.sub op (i + 1) (String.length op - i - 1))
 
+(* ---- huge views (ModelBig.v): `<explicit prefix> <length>` = a view of <length> characters at the start of a
+   zero-filled allocation of 2^33+16 characters whose first characters are the explicit prefix *)
+let big_cap = z_of_big (Big.add (Big.shift_left Big.one 33) (Big.of_int 16))
+let next_bview t =
+  let pre = next_zlist t in
+  let n = next_z t in
+  { bbuf = { spre = pre; sfill = Z0; scap = big_cap }; boff = Z0; blen = n }
+(* offset, size and (for at most 16 characters) the characters of a result view *)
+let bview_s (v : bview) =
+  if Big.gt (big_of_z v.blen) (Big.of_int 16) then join [ zs v.boff; zs v.blen; "long" ]
+  else match chars_b v with Ok l -> join [ zs v.boff; zlist_s l ] | _ -> join [ zs v.boff; zs v.blen; "unreadable" ]
+
+(* spec side: the same result shape from the closed forms of SpecBig.v *)
+let bview_sp (v : bview) =
+  if Big.gt (big_of_z v.blen) (Big.of_int 16) then join [ zs v.boff; zs v.blen; "long" ]
+  else join [ zs v.boff; zlist_s (chars_sp v) ]
+let small z = Big.leq (big_of_z z) (Big.of_int 4096)
+let zmin a b = if Big.leq (big_of_z a) (big_of_z b) then a else b
+
+let run_big what t =
+  let ck, ct = kinds (next_str t) in
+  let bl l = join (List.map bs l) in
+  if what = "probe" then ("ok 1", "ok 1")
+  else
+    let a = next_bview t in
+    if Big.gt (big_of_z a.blen) (big_of_z big_cap) || List.length a.bbuf.spre > 256 then ("bad-case", "na")
+    else
+      (* the closed forms walk min(length1, length2) characters: only evaluated when that is short *)
+      let cmp_s x y = if small (zmin x.blen y.blen) then "ok " ^ zs (compare_sp ct x y) else "na" in
+      let rel_ss x y = if small (zmin x.blen y.blen) then "ok " ^ bl (rel_sp ct x y) else "na" in
+      let sub_cmp_s p k y = match substr_sp a p k with Some s -> cmp_s s y | None -> "na" in
+      let cstr l = sp_of_list (cstr_s (l @ [ Z0 ])) in
+      match what with
+      | "substr" ->
+          let p = next_z t in
+          let k = next_z t in
+          (res_s bview_s (substr_b a p k), opt_s bview_sp (substr_sp a p k))
+      | "rmpre" ->
+          let n = next_z t in
+          (res_s bview_s (remove_prefix_b a n), opt_s bview_sp (remove_prefix_sp a n))
+      | "rmsuf" ->
+          let n = next_z t in
+          (res_s bview_s (remove_suffix_b a n), opt_s bview_sp (remove_suffix_sp a n))
+      | "copy" ->
+          let cnt = next_z t in
+          let pos = next_z t in
+          let avail = if Big.leq (big_of_z pos) (big_of_z a.blen) then Big.sub (big_of_z a.blen) (big_of_z pos) else Big.zero in
+          if Big.gt (Big.min (big_of_z cnt) avail) (Big.of_int 64) then ("bad-case", "na")
+          else
+            ( res_s (fun (r, l) -> join (zs r :: List.map zs l)) (copy_b a cnt pos),
+              opt_s (fun s -> join (zs s.blen :: List.map zs (chars_sp s))) (substr_sp a pos cnt) )
+      | "at" ->
+          let pos = next_z t in
+          ( res_s (fun c -> join [ zs c; zs pos ]) (index_b a pos),
+            if Big.lt (big_of_z pos) (big_of_z a.blen) then join [ "ok"; zs (bget a pos); zs pos ] else "na" )
+      | "back" ->
+          let last = z_of_big (Big.pred (big_of_z a.blen)) in
+          ( res_s (fun c -> join [ zs c; zs last ]) (back_b a),
+            if Big.sign (big_of_z a.blen) > 0 then join [ "ok"; zs (bget a last); zs last ] else "na" )
+      | "cmpp" ->
+          let s = next_zlist t in
+          (res_s zs (compare_p_b ck a (carr_of s)), cmp_s a (cstr s))
+      | "cmp3p" ->
+          let p = next_z t in
+          let k = next_z t in
+          let s = next_zlist t in
+          (res_s zs (compare3_p_b ck a p k (carr_of s)), sub_cmp_s p k (cstr s))
+      | "cmp4p" ->
+          let p = next_z t in
+          let k = next_z t in
+          let s = next_zlist t in
+          let k2 = next_z t in
+          (res_s zs (compare4_p_b ck a p k (view_of s) k2), sub_cmp_s p k (sp_of_list (sub0 s Z0 k2)))
+      | "startsp" ->
+          let s = next_zlist t in
+          (res_s bs (starts_with_p_b ck a (carr_of s)), "ok " ^ bs (starts_with_sp a (cstr s)))
+      | "endsp" ->
+          let s = next_zlist t in
+          (res_s bs (ends_with_p_b ck a (carr_of s)), "ok " ^ bs (ends_with_sp a (cstr s)))
+      (* bigrelpl: the view comes first on the line, the C string second; the call is `s OP view` *)
+      | "relpl" ->
+          let s = next_zlist t in
+          (res_s bl (rel_pl_b ck (carr_of s) a), rel_ss (cstr s) a)
+      | "relpr" ->
+          let s = next_zlist t in
+          (res_s bl (rel_pr_b ck a (carr_of s)), rel_ss a (cstr s))
+      | "cmp" ->
+          let b = next_bview t in
+          (res_s zs (compare_b ck a b), cmp_s a b)
+      | "cmp3" ->
+          let p = next_z t in
+          let k = next_z t in
+          let b = next_bview t in
+          (res_s zs (compare3_b ck a p k b), sub_cmp_s p k b)
+      | "cmp5" ->
+          let p = next_z t in
+          let k = next_z t in
+          let b = next_bview t in
+          let p2 = next_z t in
+          let k2 = next_z t in
+          ( res_s zs (compare5_b ck a p k b p2 k2),
+            match (substr_sp a p k, substr_sp b p2 k2) with Some s, Some u -> cmp_s s u | _ -> "na" )
+      | "rel" ->
+          let b = next_bview t in
+          (res_s bl (rel6_b ck a b), rel_ss a b)
+      (* the search families on a huge haystack: the model's loops need fuel proportional to the haystack length, so
+         the model leg is the closed form that Properties_big.v (C08_big_search) proves equal to find_m ... on the
+         expanded views; it walks at most `range` indices *)
+      | "find" | "rfind" | "ffo" | "ffno" | "flo" | "flno" ->
+          let b = next_bview t in
+          let pos = next_z t in
+          let forward = what = "find" || what = "ffo" || what = "ffno" in
+          let bp = big_of_z pos and bn = big_of_z a.blen in
+          let range = if forward then (if Big.gt bp bn then Big.zero else Big.sub bn bp) else Big.min bp bn in
+          let byset = what <> "find" && what <> "rfind" in
+          if Big.gt range (Big.of_int 4096) || (Big.gt (big_of_z b.blen) (Big.of_int 64) && (byset || Big.gt bn (Big.of_int 4096)))
+          then ("bad-case", "na")
+          else
+            let f =
+              match what with
+              | "find" -> find_sp | "rfind" -> rfind_sp | "ffo" -> find_first_of_sp | "ffno" -> find_first_not_of_sp
+              | "flo" -> find_last_of_sp | _ -> find_last_not_of_sp
+            in
+            let r = "ok " ^ zs (f a b pos) in
+            (r, r)
+      | "starts" ->
+          let b = next_bview t in
+          (res_s bs (starts_with_b ck a b), if small b.blen || Big.gt (big_of_z b.blen) (big_of_z a.blen) then "ok " ^ bs (starts_with_sp a b) else "na")
+      | "ends" ->
+          let b = next_bview t in
+          (res_s bs (ends_with_b ck a b), if small b.blen || Big.gt (big_of_z b.blen) (big_of_z a.blen) then "ok " ^ bs (ends_with_sp a b) else "na")
+      | _ -> raise Not_found
+
 let run_case op t =
+  if String.length op > 3 && String.sub op 0 3 = "big" then run_big (String.sub op 3 (String.length op - 3)) t else
   let ck, ct = kinds (next_str t) in
   let base, variant = split_op op in
   match base with
